@@ -60,6 +60,19 @@ SEEDS = {
         },
         "edges": [(7, 5), (5, 3), (5, 2)],
     },
+    # two divisions side by side (a refusal in one lineage while a stroke overwrites
+    # both daughters of the other)
+    "twodiv": {
+        "nodes": {
+            1: (0, (0, 2, 0, 2)),
+            2: (1, (0, 1, 0, 2)),
+            3: (1, (1, 3, 1, 3)),
+            4: (0, (2, 4, 3, 5)),
+            5: (1, (0, 2, 3, 5)),
+            6: (1, (3, 4, 3, 6)),
+        },
+        "edges": [(1, 2), (1, 3), (4, 5), (4, 6)],
+    },
     "fix6": {
         "nodes": {
             1: (0, (1, 3, 2, 4)),
@@ -73,26 +86,28 @@ SEEDS = {
     },
 }
 
+# anisotropic scales are chosen with a voxel size != 1, so that "area" and "pixel count"
+# cannot be confused
 WORLDS = {
     # name: ndim, seg, scale, pos mode, extra features, custom features, ids mode
     "noseg-2d": dict(ndim=3, seg=False, scale=None, pos="single", extra=[], custom=True, ids="compute"),
     "noseg-2d-given": dict(ndim=3, seg=False, scale=None, pos="single", extra=[], custom=True, ids="given"),
     "noseg-2d-fd": dict(ndim=3, seg=False, scale=None, pos="single", extra=[], custom=False, ids="featuredict"),
-    "noseg-3d": dict(ndim=4, seg=False, scale=[1.0, 2.0, 1.0, 0.5], pos="single", extra=[], custom=True, ids="compute"),
+    "noseg-3d": dict(ndim=4, seg=False, scale=[1.0, 2.0, 1.0, 0.75], pos="single", extra=[], custom=True, ids="compute"),
     "noseg-2d-axes": dict(ndim=3, seg=False, scale=None, pos="axes", extra=[], custom=True, ids="compute"),
     "seg-2d": dict(ndim=3, seg=True, scale=None, pos="single", extra=["iou"], custom=True, ids="compute"),
     "seg-2d-core": dict(ndim=3, seg=True, scale=None, pos="single", extra=[], custom=False, ids="compute"),
-    "seg-2d-aniso": dict(ndim=3, seg=True, scale=[1.0, 2.0, 0.5], pos="single", extra=["iou"], custom=False, ids="given"),
+    "seg-2d-aniso": dict(ndim=3, seg=True, scale=[1.0, 2.0, 0.75], pos="single", extra=["iou"], custom=False, ids="given"),
     "seg-2d-iso": dict(ndim=3, seg=True, scale=[1.0, 1.0, 1.0], pos="single", extra=["iou", "circularity"], custom=False, ids="compute"),
     # skimage's 2D perimeter supports isotropic spacing only (upstream limit)
     "seg-2d-all": dict(ndim=3, seg=True, scale=[1.0, 2.0, 2.0], pos="single",
                        extra=["iou", "ellipse_axis_radii", "circularity", "perimeter"], custom=True, ids="compute"),
-    "seg-2d-aniso-ell": dict(ndim=3, seg=True, scale=[1.0, 2.0, 0.5], pos="single",
+    "seg-2d-aniso-ell": dict(ndim=3, seg=True, scale=[1.0, 2.0, 0.75], pos="single",
                        extra=["ellipse_axis_radii"], custom=False, ids="compute"),
     "seg-2d-fd": dict(ndim=3, seg=True, scale=None, pos="single", extra=[], custom=False, ids="featuredict"),
     "seg-3d": dict(ndim=4, seg=True, scale=None, pos="single", extra=["iou"], custom=False, ids="compute"),
-    "seg-3d-aniso": dict(ndim=4, seg=True, scale=[1.0, 2.0, 1.0, 0.5], pos="single", extra=["iou"], custom=True, ids="compute"),
-    "seg-3d-all": dict(ndim=4, seg=True, scale=[1.0, 2.0, 1.0, 0.5], pos="single",
+    "seg-3d-aniso": dict(ndim=4, seg=True, scale=[1.0, 2.0, 1.0, 0.75], pos="single", extra=["iou"], custom=True, ids="compute"),
+    "seg-3d-all": dict(ndim=4, seg=True, scale=[1.0, 2.0, 1.0, 0.75], pos="single",
                        extra=["iou", "ellipse_axis_radii", "circularity", "perimeter"], custom=False, ids="compute"),
 }
 
@@ -167,11 +182,11 @@ def make_graph(w, seed) -> tuple[nx.DiGraph, np.ndarray | None]:
             else:
                 attrs["pos"] = p
         if w["custom"] and n % 2 == 1:
-            attrs["score"] = n * 0.5
+            attrs["score"] = (n - 1) * 0.5  # node 1 carries the falsy value 0.0
         g.add_node(n, **attrs)
     for u, v in seed["edges"]:
         if w["custom"] and (u + v) % 2 == 1:
-            g.add_edge(u, v, w=float(u * 10 + v))
+            g.add_edge(u, v, w=float(u * 10 + v) - 12.0)  # edge (1, 2) carries the falsy value 0.0
         else:
             g.add_edge(u, v)
     if w["ids"] in ("given", "featuredict"):
